@@ -509,11 +509,12 @@ def angle_axis_to_quaternion(angle_axis: torch.Tensor) -> torch.Tensor:
     a2: torch.Tensor = angle_axis[..., 2:3]
     theta_squared: torch.Tensor = a0 * a0 + a1 * a1 + a2 * a2
 
-    theta: torch.Tensor = torch.sqrt(theta_squared)
-    half_theta: torch.Tensor = theta * 0.5
-
     mask: torch.Tensor = theta_squared > 0.0
-    ones: torch.Tensor = torch.ones_like(half_theta)
+    ones: torch.Tensor = torch.ones_like(theta_squared)
+
+    # derivative of sqrt at zero is infinite, result for zero angle is not used (cf. k_neg below)
+    theta: torch.Tensor = torch.sqrt(torch.where(mask, theta_squared, ones))
+    half_theta: torch.Tensor = theta * 0.5
 
     k_neg: torch.Tensor = 0.5 * ones
     k_pos: torch.Tensor = torch.sin(half_theta) / theta
